@@ -31,9 +31,22 @@ pub enum Ty {
     Two(Box<Ty>, Box<Ty>),
     /// const-generic user type in a module named like a std one
     StdLike(u8),
+    /// user types at paths whose segments look like pieces of type syntax
+    UserPath(u8),
+    /// the type of another crate that truc knows about when built with its `uuid` feature
+    Uuid,
     /// `depth` nested std generics (Vec / Option / Box by the bits of `pattern`) around a String
     Chain(u8, u16),
 }
+
+const USER_PATHS: [&str; 6] = [
+    "vtypes::vec3_usize::Point",
+    "vtypes::vec3::Point",
+    "vtypes::core::option::Option2",
+    "vtypes::alloc::vec::Vec3",
+    "vtypes::i32_f64::Mixed_isize",
+    "vtypes::x86_64::Reg8_u8",
+];
 
 const PRIMS: [&str; 16] = ["u8", "u16", "u32", "u64", "u128", "usize", "i8", "i16", "i32", "i64", "i128", "isize", "f32", "f64", "char", "bool"];
 
@@ -60,6 +73,8 @@ impl Ty {
             Ty::Deep(t) => format!("vtypes::types::inner::deeper::Deep<{}>", t.short()),
             Ty::Two(a, b) => format!("vtypes::types::Two<{}, {}>", a.short(), b.short()),
             Ty::StdLike(n) => format!("vtypes::string::String<{}>", 1 + n % 16),
+            Ty::UserPath(n) => USER_PATHS[*n as usize % USER_PATHS.len()].to_string(),
+            Ty::Uuid => "uuid::Uuid".into(),
             Ty::Chain(depth, pattern) => {
                 let mut s = "String".to_string();
                 for k in 0..(*depth as usize) {
@@ -77,7 +92,7 @@ impl Ty {
     }
     pub fn depth(&self) -> usize {
         match self {
-            Ty::Prim(_) | Ty::Str | Ty::BoxStr | Ty::Plain | Ty::StdLike(_) => 1,
+            Ty::Prim(_) | Ty::Str | Ty::BoxStr | Ty::Plain | Ty::StdLike(_) | Ty::UserPath(_) | Ty::Uuid => 1,
             Ty::Chain(d, _) => 1 + *d as usize,
             Ty::Boxed(t) | Ty::Vector(t) | Ty::Opt(t) | Ty::Array(t, _) | Ty::BoxSlice(t) | Ty::Gen(t) | Ty::Deep(t) => 1 + t.depth(),
             Ty::Res(a, b) | Ty::Two(a, b) => 1 + a.depth().max(b.depth()),
@@ -101,8 +116,13 @@ impl Ty {
                 std_used.insert("Box");
                 kinds.insert("box_str");
             }
-            Ty::Plain | Ty::StdLike(_) => {
-                kinds.insert(if matches!(self, Ty::Plain) { "user_type" } else { "user_type_std_like_path" });
+            Ty::Plain | Ty::StdLike(_) | Ty::UserPath(_) | Ty::Uuid => {
+                kinds.insert(match self {
+                    Ty::Plain => "user_type",
+                    Ty::Uuid => "uuid_crate_type",
+                    Ty::StdLike(_) => "user_type_std_like_path",
+                    _ => "user_type_syntax_like_path",
+                });
                 if inside_std {
                     *user_in_std = true;
                 }
@@ -163,7 +183,7 @@ impl Ty {
 }
 
 fn ty_strategy() -> impl Strategy<Value = Ty> {
-    let leaf = prop_oneof![12 => (0u8..16).prop_map(Ty::Prim), 4 => Just(Ty::Str), 2 => Just(Ty::BoxStr), 2 => Just(Ty::Plain), 1 => (0u8..16).prop_map(Ty::StdLike), 1 => (5u8..12, any::<u16>()).prop_map(|(d, p)| Ty::Chain(d, p))];
+    let leaf = prop_oneof![12 => (0u8..16).prop_map(Ty::Prim), 4 => Just(Ty::Str), 2 => Just(Ty::BoxStr), 2 => Just(Ty::Plain), 1 => (0u8..16).prop_map(Ty::StdLike), 2 => (0u8..6).prop_map(Ty::UserPath), 1 => Just(Ty::Uuid), 1 => (5u8..12, any::<u16>()).prop_map(|(d, p)| Ty::Chain(d, p))];
     leaf.prop_recursive(7, 64, 5, |inner| {
         prop_oneof![
             2 => inner.clone().prop_map(|t| Ty::Boxed(Box::new(t))),
@@ -267,7 +287,7 @@ fn look<T>(i: usize, table: &StaticTypeResolver, short: &str, plan: &[u8]) {
 }
 
 /// Every other route by which a name gets recorded for `T`: typed and by-name lookups in the table of the
-/// generated types and in a table of the standard types only (where `T` may be absent: no answer is fine, an
+/// generated types and in a table of the standard types only (`add_all_types`, truc built with its `uuid` feature) (where `T` may be absent: no answer is fine, an
 /// answer for another type is not), and data added to a native builder over the table.
 fn routes<T>(i: usize, table: &StaticTypeResolver, std_table: &StaticTypeResolver, short: &str, plan: &[u8]) {
     fn quiet<R>(f: impl FnOnce() -> R) -> Option<R> {
@@ -319,7 +339,7 @@ fn pipeline(ext: &Externs, dir: &std::path::Path, cases: &[TyCase]) -> Result<Ve
     // P1
     let mut p1 = String::new();
     p1.push_str(P1_HELPERS);
-    p1.push_str("fn main() {\n    std::panic::set_hook(Box::new(|_| {}));\n    let mut table = StaticTypeResolver::new();\n    let mut std_table = StaticTypeResolver::new();\n    std_table.add_std_types();\n");
+    p1.push_str("fn main() {\n    std::panic::set_hook(Box::new(|_| {}));\n    let mut table = StaticTypeResolver::new();\n    let mut std_table = StaticTypeResolver::new();\n    std_table.add_all_types();\n");
     for (i, c) in cases.iter().enumerate() {
         p1.push_str(&format!("    emit::<{}>({}, &mut table);\n", c.ty.short(), i));
     }
@@ -504,7 +524,7 @@ pub fn run_c17(n: usize) -> Result<Value, String> {
     let _ = fs::remove_dir_all(&dir);
     Ok(out.to_json(
         "C17",
-        "types from the grammar T ::= 16 primitives | String | Box<str> | Box<T> | Vec<T> | Option<T> | Result<T,T> | tuples of arity 0..3 | [T; n] | Box<[T]> | user types (plain, generic, nested-module generic, two-parameter), nesting depth <= 5, deduplicated; program P1 (compiled, run) prints the name truc records for each and looks each up in a StaticTypeResolver by 6 spellings (short, compiler's, each re-spaced by a generated plan, no spaces, extra spaces); the name recorded for each type through the other routes is printed too (typed lookup in that table; typed and by-name lookups in a table of the standard types only, where no answer is fine but an answer for another type is not; data added to a native builder over the table through add_datum, add_dynamic_datum with three spellings and a partial override); program P2 must type-check `fn(PhantomData<T as written>) -> PhantomData<T as recorded>` for every type and every distinct recorded name, and every answer must carry the type's size and alignment. non-trivial: depth >= 3 and (>= 2 of the 5 rewritten std paths or a user type nested in a std type); distinct by hash of the type",
+        "types from the grammar T ::= 16 primitives | String | Box<str> | Box<T> | Vec<T> | Option<T> | Result<T,T> | tuples of arity 0..3 | [T; n] | Box<[T]> | user types (plain, generic, nested-module generic, two-parameter, const-generic at a std-like path, types at paths whose segments look like type syntax: `vec3_usize::Point`, `core::option::Option2`, `alloc::vec::Vec3`, ...), nesting depth <= 5, deduplicated; program P1 (compiled, run) prints the name truc records for each and looks each up in a StaticTypeResolver by 6 spellings (short, compiler's, each re-spaced by a generated plan, no spaces, extra spaces); the name recorded for each type through the other routes is printed too (typed lookup in that table; typed and by-name lookups in a table of the standard types only (`add_all_types`, truc built with its `uuid` feature), where no answer is fine but an answer for another type is not; data added to a native builder over the table through add_datum, add_dynamic_datum with three spellings and a partial override); program P2 must type-check `fn(PhantomData<T as written>) -> PhantomData<T as recorded>` for every type and every distinct recorded name, and every answer must carry the type's size and alignment. non-trivial: depth >= 3 and (>= 2 of the 5 rewritten std paths or a user type nested in a std type); distinct by hash of the type",
     ))
 }
 
